@@ -16,10 +16,10 @@ def decl(file, header, attrs=None, rewrites=None, container=None):
 PAT = r'Op::\w+(?:\s*\{[^{}]*\})?'
 
 
-def display_fmt(ty, spec):
+def display_fmt(ty, spec, facts):
     """`impl Display for <ty>`: fmt emitted as an inherent fn (R2); the formatter is the sink (R7)"""
     return {'kind': 'fn', 'file': F, 'container': r'^impl Display for %s$' % ty, 'name': 'fmt', 'props': ['C08'],
-            'ensures': [('in_order', 'r is Ok && final(f).st() == %s(old(f).st(), *self)' % spec)],
+            'ensures': [('in_order', 'r is Ok && final(f).st() == %s(old(f).st(), *self)' % spec), ('token_facts', '%s(*self)' % facts)],
             'rewrites': [
                 {'where': 'sig', 'rule': 'R7', 'find': 'f: &mut fmt::Formatter', 'replace': 'f: &mut Out'},
                 {'where': 'sig', 'rule': 'R3', 'find': 'fmt::Result', 'replace': 'Result<()>'},
@@ -34,7 +34,7 @@ SER_REWRITES = [
     {'rule': 'R2', 'find': 'use std::io::Write;', 'replace': ''},
     # R7 + R1: ghost bookkeeping (segmentation witnesses) declared next to the sink
     {'rule': 'R7', 'find': 'let mut data = Vec::new();',
-     'replace': 'broadcast use tok_axioms; let mut data = Out::new(); proof { lemma_literals(); } let ghost ops0 = ops@; let ghost mut n: int = 0; '
+     'replace': 'let mut data = Out::new(); proof { lemma_literals(); } let ghost ops0 = ops@; let ghost mut n: int = 0; '
                 'let ghost mut cuts: Seq<int> = seq![0int]; let ghost mut lasts: Seq<Point> = seq![origin()];'},
     {'rule': 'R1', 'find': 'let mut advance = 1;', 'replace': 'let mut advance = 1; let ghost s0 = f.st();'},
     {'rule': 'R1', 'find': 'ops = &ops[advance..];',
@@ -97,11 +97,11 @@ UNIT = {
   'enum TextDrawAdjusted': decl(F, r'^pub enum TextDrawAdjusted$'),
   'enum Op': decl(F, r'^pub enum Op$'),
 
-  'Point::fmt': display_fmt('Point', 'st_pt'),
-  'ViewRect::fmt': display_fmt('ViewRect', 'st_rect'),
-  'Matrix::fmt': display_fmt('Matrix', 'st_matrix'),
-  'Rgb::fmt': display_fmt('Rgb', 'st_rgb'),
-  'Cmyk::fmt': display_fmt('Cmyk', 'st_cmyk'),
+  'Point::fmt': display_fmt('Point', 'st_pt', 'pt_facts'),
+  'ViewRect::fmt': display_fmt('ViewRect', 'st_rect', 'rect_facts'),
+  'Matrix::fmt': display_fmt('Matrix', 'st_matrix', 'matrix_facts'),
+  'Rgb::fmt': display_fmt('Rgb', 'st_rgb', 'rgb_facts'),
+  'Cmyk::fmt': display_fmt('Cmyk', 'st_cmyk', 'cmyk_facts'),
 
   'RenderingIntent::to_str': {'kind': 'fn', 'file': T, 'container': r'^impl RenderingIntent$', 'name': 'to_str', 'props': ['C08'],
      'ensures': [('table70_intents', 'intent_of_str(r@) == Some(self)')],
